@@ -1676,7 +1676,23 @@ def split_top(o):
 
 class C10(Prop):
     pid = "C10"
-    theorems = [("C10_compose", None)]
+    theorems = [("C10_stream",
+                 "forall (cap : cap_t) (segs : list (list N * list N)) (tail : list N) (d : dec), norm d = norm init -> "
+                 "segs_ok cap segs -> quiet_tail tail -> "
+                 "results (snd (run cap d (stream_of segs tail))) = flat_map (fun gm => seg_results (fst gm) (snd gm)) segs /\\ "
+                 "fin (fst (run cap d (stream_of segs tail))) = if 0 <? lenN tail then [RErr (DiscardedBytes (lenN tail))] else []"),
+                ("C10_reader",
+                 "forall (cap : cap_t) (kind : skind) (segs : list (list N * list N)) (tail : list N), kind <> KEh -> "
+                 "segs_ok cap segs -> quiet_tail tail -> "
+                 "snd (rd_all cap (length (stream_of segs tail) + 2) (rd_new kind (map SByte (stream_of segs tail)))) = "
+                 "map to_rd (flat_map (fun gm => seg_results (fst gm) (snd gm)) segs) ++ "
+                 "(if 0 <? lenN tail then [RdIoErr EkEof (lenN tail)] else [])"),
+                ("C10_compose", None)]
+    level_text = ("Theorems C10_stream, C10_reader, C10_compose (Coq, closed): for any sequence of framed payloads separated by noise "
+                  "(start sequence only at the end of each noise) and trailing noise, decoder and readers over slice/iterator/io::Read "
+                  "report exactly DiscardedBytes(|g_i|), b_i, ..., then IoErr(Eof,|tail|), then None; SmlReader's result for every call "
+                  "kind and target is parse_from of the DecoderReader result (bytes / complete::parse / streaming::Parser). Content "
+                  "preservation by the parsers is C03/C09. Oracle: real SmlReader on generated multi-file transmissions vs the generator's files.")
     suite_names = "S-FRONT (rd)"
     rule = ("sequences of 0..3 SML files, each framed, separated by noise strings that contain the start sequence only at their end, "
             "optionally trailing noise; sources slice / iterator / io::Read; buffers default 8 KiB, ArrayBuf<N> (N >= payload), Vec; "
@@ -1765,7 +1781,21 @@ class C10(Prop):
 
 class C11(Prop):
     pid = "C11"
-    theorems = [("C11_wouldblock", None)]
+    theorems = [("C11_wouldblock",
+                 "forall (cap : cap_t) (evs : list sev) (d : dec) (lim1 lim2 : nat), (length evs + 1 < lim1)%nat -> "
+                 "(length (strip evs) + 1 < lim2)%nat -> "
+                 "drop_wb (snd (rd_all cap lim1 (mkrd d KIo evs))) = snd (rd_all cap lim2 (mkrd d KIo (strip evs)))"),
+                ("C11_wouldblock_once", None), ("C11_wouldblock_untouched", None),
+                ("C11_other",
+                 "forall (cap : cap_t) (k : skind) (d : dec) (evs : list sev) (lim : nat), "
+                 "snd (rd_all cap (S lim) (mkrd d k (SOther :: evs))) = RdIoErr EkOther (reset_cnt d) :: snd (rd_all cap lim (rd_new k evs))"),
+                ("C11_eof", None)]
+    level_text = ("Theorems C11_wouldblock, _once, _untouched, C11_other, C11_eof (Coq, closed): for every event schedule of an io::Read "
+                  "source, dropping the would-block results gives exactly the run with all WouldBlock/Interrupted events removed; each "
+                  "would-block surfaces once and leaves decoder and source untouched; another error returns the not-yet-reported count and "
+                  "the rest equals a fresh reader's run; at end of input None iff nothing pending, then None forever. std's read_exact "
+                  "(retry on Interrupted, Ok(0) = UnexpectedEof) is modelled. Oracle: real readers over fault-injecting io::Read / embedded-hal sources.")
+    level_note = Prop.level_note + "; std::io::Read::read_exact semantics (retry Interrupted, Ok(0) => UnexpectedEof) modelled as documented"
     suite_names = "S-IO (rd)"
     rule = ("byte streams (frames, corrupted frames, noise) x fault vectors: WouldBlock / Interrupted at arbitrary inter-byte "
             "positions (any finite number in a row), one Other error at an arbitrary position, end of input at any cut; io::Read and "
@@ -1903,10 +1933,10 @@ class C11(Prop):
         return bad
 
 
-REGISTRY = {"C01": C01, "C02": C02, "C05": C05, "C06": C06, "C07": C07, "C08": C08, "C12": C12, "C13": C13, "C14": C14, "C15": C15, "C16": C16, "C17": C17, "C18": C18}
+REGISTRY = {"C01": C01, "C02": C02, "C05": C05, "C06": C06, "C07": C07, "C08": C08, "C10": C10, "C11": C11, "C12": C12, "C13": C13, "C14": C14, "C15": C15, "C16": C16, "C17": C17, "C18": C18}
 
 NOT_CLAIMED = {}
-for _p in ["C03", "C04", "C09", "C10", "C11"]:
+for _p in ["C03", "C04", "C09"]:
     NOT_CLAIMED[_p] = "check under construction in this revision (model/theorem not yet committed); the technique applies, see DESIGN.md section 5"
 
 
